@@ -423,6 +423,11 @@ func (in *Interp) doAssert(id string, c Bool, finding string, pred Bool) {
 	neg := in.tc.Not(ct)
 	known := finding != "" && in.cfg.Known[finding]
 	report := func(extra []*Term, isKnown bool) bool {
+		if sat, known := in.enumDecide(extra); known && !sat {
+			in.enumHits++
+			in.res.Asserts++
+			return false
+		}
 		res, vals := in.sol.CheckAssert(extra, in.tapeTerms())
 		switch res {
 		case Sat:
